@@ -54,7 +54,7 @@ class Builder:
 
     def __init__(self, prog: Program | None, func: Func | None, env=None, facts=None, *,
                  positive=DEFAULT_POSITIVE, erase_casts=True, inline_depth=3, self_prefix="self",
-                 inline_filter=None, erase_layout=False, erase_validation=False, keep_raises=False, track_locals=False, track_effects=False, summarise_loops=False, erase_persistence=False, inline_new=0):
+                 inline_filter=None, erase_layout=False, erase_validation=False, keep_raises=False, track_locals=False, track_effects=False, summarise_loops=False, erase_persistence=False, inline_new=0, bind_args=False):
         self.prog, self.func = prog, func
         self.env = dict(env or {})
         self.facts = facts or Facts()
@@ -65,6 +65,7 @@ class Builder:
         self.erase_layout = erase_layout
         self.erase_validation = erase_validation   # argtest.<check>(name, value, ...) -> value (validators return their value)
         self.keep_raises = keep_raises     # a `raise X(...)` is the value raise(X) (a leaf of the decision tree), not bottom
+        self.bind_args = bind_args       # calls of repo callees are read with every argument bound to its parameter name (constant defaults filled in)
         self.inline_new = inline_new     # depth to which helpers that the reference tree does not have are inlined (value and effects)
         self.erase_persistence = erase_persistence  # whether a value is stored as a persisted extra / buffer or as a plain attribute is not compared
         self.summarise_loops = summarise_loops  # a loop is the term loop(iterable, what one iteration computes / stores / calls) instead of an opaque region
@@ -78,7 +79,7 @@ class Builder:
                     positive=self.positive, erase_casts=self.erase_casts, inline_depth=self.inline_depth,
                     inline_filter=self.inline_filter, erase_layout=self.erase_layout, erase_validation=self.erase_validation,
                     keep_raises=self.keep_raises, track_locals=self.track_locals, track_effects=self.track_effects,
-                    summarise_loops=self.summarise_loops, erase_persistence=self.erase_persistence, inline_new=self.inline_new)
+                    summarise_loops=self.summarise_loops, erase_persistence=self.erase_persistence, inline_new=self.inline_new, bind_args=self.bind_args)
         b.module_names = getattr(self, "module_names", set())
         b.stores = dict(self.stores)
         return b
@@ -298,10 +299,32 @@ class Builder:
             star = True
         else:
             star = False
-
         if self.erase_validation and isinstance(f, ast.Attribute) and dotted(f.value) == "argtest" and len(args) >= 2 \
                 and f.attr in VALIDATORS and isinstance(e.args[0], ast.Constant) and isinstance(e.args[0].value, str):
             return args[1]
+        if self.bind_args and not star and self.prog is not None and self.func is not None:
+            r_ = self.prog.resolve_call(self.func, e)
+            if r_ is not None and r_[0].kind not in ("getter", "setter", "deleter"):
+                cal, bnd = r_
+                ca = cal.node.args
+                pn = [x.arg for x in ca.posonlyargs + ca.args]
+                explicit_self = False
+                if cal.cls is not None and cal.kind != "static":
+                    if bnd:
+                        pn = pn[1:]
+                    else:
+                        explicit_self = True
+                if not ca.vararg and len(args) <= len(pn) and not (set(pn[:len(args)]) & set(kws)):
+                    keep = 1 if explicit_self and args else 0
+                    for nm, v in zip(pn[keep:len(args)], args[keep:]):
+                        kws[nm] = v
+                    args = args[:keep]
+                    dflt = dict(zip(pn[len(pn) - len(ca.defaults):], ca.defaults)) if ca.defaults else {}
+                    dflt.update({x.arg: d for x, d in zip(ca.kwonlyargs, ca.kw_defaults) if d is not None})
+                    for nm, d in dflt.items():
+                        if nm not in kws and isinstance(d, ast.Constant):
+                            kws[nm] = self.t(d)
+
 
         # call of a locally bound callable value (e.g. `transform = lambda x: x` under a guard)
         if isinstance(f, ast.Name) and f.id in self.env and isinstance(self.env[f.id], Rat):
